@@ -372,10 +372,11 @@ fn check_history_change<L: Locale>(
             .pathname
             .with_untracked(|path| get_locale_from_path::<L>(path, base_path).unwrap_or_default());
 
-        sync.set_value(Some(path_locale));
-        history_changed.set_value(true);
-
+        // only a history entry of another locale changes the locale: arming the flags for one of the same locale
+        // would make the next, genuine, locale switch look like the echo of this event.
         if i18n.get_locale_untracked() != path_locale {
+            sync.set_value(Some(path_locale));
+            history_changed.set_value(true);
             i18n.set_locale(path_locale);
         }
     }
